@@ -49,3 +49,12 @@ Example C11_cycle_is_error :
   let r := run_cmd p (CReq (FQual None) 1) s_init in
   snd r = RErr 5 /\ cache (genv (fst r)) = [] /\ stack (genv (fst r)) = [].
 Proof. vm_compute. repeat split. Qed.
+
+(* a module that handles failing requires itself (MTry: def x = do require M; 1 catch all 0 end): A requires B; B tries A, then C; C requires B.
+   Both guarded requires fail with the cycle error (x = 0), every module's code starts once, B and A complete, the stack is empty again *)
+Example C11_guarded_requires_in_a_cycle :
+  let p := [(1, mk_mod true [MLog; MReq (FQual None) 2; MDef 5 1]); (2, mk_mod true [MLog; MTry (FQual None) 1 0; MTry (FQual None) 3 1; MDef 2 7]);
+            (3, mk_mod true [MLog; MReq (FQual None) 2])] in
+  let '(g, r) := req FUEL p g_init 1 in
+  (log g, done g, stack g, r) = ([1; 2; 3], [2; 1], [], ROk [(1002, SMod 2 [(0, 0); (1, 0); (2, 7)]); (5, SInt 1)]).
+Proof. vm_compute. reflexivity. Qed.
